@@ -42,7 +42,7 @@ CHECKS = {
               "grouped update failing inside apply_changes stays half applied (D17)."),
         design="§7 C14"),
     "C18": dict(
-        technique="Lean 4 fixed-point theorems + table obligation order_respects_reads (decide over tables regenerated from /repo)",
+        technique="Lean 4 fixed-point theorems + table obligation order_respects_reads (decide +kernel over tables regenerated from /repo on every run, builder classes included) + K-calc correspondence + recomputation oracle",
         text=("Proved in Lean: in a consistent state any sequence of recomputation requests changes nothing; a full pass in "
               "an order respecting the reads yields a consistent state; nodes outside a chain are never written. The "
               "obligation order_respects_reads is re-proved by decide on every run over CANONICAL_COMPUTATION_ORDER, "
@@ -96,7 +96,7 @@ CHECKS = {
               "repaired by a fix: commit."),
         design="§7 C11"),
     "C12": dict(
-        technique="Lean 4 linearity theorems on Model A/B chains + K-calc correspondence + ratio oracle",
+        technique="Lean 4 linearity and device-share theorems on Model A/B chains + K-calc correspondence + ratio / device-share oracle",
         text=("Proved in Lean: scalar driver × k ⇒ hourly product × k at every hour, through `.to`; divisor × k ⇒ "
               "quotient / k; occurrences, occurrence-hours and journeys in parallel are × k when all traffic is × k; "
               "ceil-based counts are not proportional (witness). K-calc ties Model B to the code; the ratio test on "
@@ -172,7 +172,7 @@ CHECKS["C07"] = dict(
           "and 'leaf has a source' are covered by the oracle only."),
     design="§7 C07")
 CHECKS["C08"] = dict(
-    technique="Lean 4 theorems: the port of attr_updates_chain yields a complete, duplicate-free, dependency-respecting order and terminates; the link-bookkeeping model (Model F) keeps links mirrored under every operation; + correspondence (K-graph on exported real graphs, K-bookkeeping on operation sequences) + perturbation oracle",
+    technique="Lean 4 theorems: the port of attr_updates_chain yields a complete, duplicate-free, dependency-respecting order and terminates; the link-bookkeeping model (Model F) keeps links mirrored under every operation; table obligation cross_object_reads_are_declared over dependency tables regenerated from /repo; + correspondence (K-graph on exported real graphs, K-bookkeeping on operation sequences) + perturbation oracle",
     text=("Proved in Lean: (1) a chain accepted by chainOk lists each dependent exactly once, after everything it depends "
           "on, and contains every transitive dependent; the literal port of attr_updates_chain produces such an order and "
           "terminates on every acyclic graph without shared ids (code_update_order_correct/terminates). (2) Model F, a "
@@ -209,7 +209,7 @@ CHECKS["C16"] = dict(
           "remove() raises after applying (D11, proved as counterexamples of the model)."),
     design="§7 C16")
 CHECKS["C17"] = dict(
-    technique="Lean 4 theorems on the builders' derivation rules (Model B Builders) + K-builders correspondence + builder-vs-plain oracle",
+    technique="Lean 4 theorems on the builders' derivation rules (Model B Builders) and builder ≡ plain in the abstract recomputation theory + K-builders correspondence + builder-vs-plain oracle",
     text=("Proved in Lean, in physical units and for all inputs: video bitrate = pixels × bits per pixel × frame rate, data = "
           "bitrate × duration, CPU = cost × bitrate; generative-AI token weights, data, latency, GPU need and base RAM "
           "formulas; a builder input drives the derived parameters proportionally. In Model B a builder job is a plain job "
